@@ -111,6 +111,11 @@ PLANS["kill-restart-early"] = P(
     [["submit", "a"], ["submit", "c"], ["kill"], ["restart"], ["submit", "a"], ["submit", "b"], ["submit", "c"], ["wait"]],
 )
 
+# duplicates of a job that is being adopted (its state must never look "failed" to a later submission)
+PLANS["kill-restart-dup"] = P({"a": {}}, [["submit", "a"], ["kill"], ["restart"], ["submit", "a"], ["submit", "a"], ["submit", "a"], ["wait"]])
+PLANS["kill-restart-dup-dep"] = P({"a": {}, "b": {"deps": {"a": "direct"}}},
+                                  [["submit", "a"], ["kill"], ["restart"], ["submit", "a"], ["submit", "b"], ["submit", "a"], ["wait"]])
+
 # --- Ctrl-C while the program waits (experiment.stop), then the same experiment again (C06, C11)
 WS = ["wait", "sigint"]
 PLANS["stop-restart"] = P({"a": {}, "b": {"deps": {"a": "direct"}}}, [["submit", "a"], ["submit", "b"], WS, ["restart"]] + submit_all("ab"))
